@@ -186,6 +186,11 @@ def build_harness(log, race=False):
         log.append(out2)
         if rc2 != 0:
             return False, out2
+        # the real (non-verif) socket constructors of lib/rsocks, probed in a child process by the C19 stream `rsocksreal`
+        rc3, out3 = sh(["go1.26.8", "build", "-o", os.path.join(B, "rsockprobe"), "./rsockprobe"], cwd=h, env=GOENV, timeout=900)
+        log.append(out3)
+        if rc3 != 0:
+            return False, out3
     return rc == 0, out
 
 
@@ -199,7 +204,7 @@ def run_streams(pid, tier, seed, outdir, log, extra_env=None, only=None):
             continue
         if st.get("tier") == "thorough" and tier != "thorough":
             continue
-        env = dict(os.environ, VERIF_SEED=str(seed), VERIF_TIER=tier, HX_OUT=outdir, HX_PROP=pid, GOMAXPROCS="16")
+        env = dict(os.environ, VERIF_SEED=str(seed), VERIF_TIER=tier, HX_OUT=outdir, HX_PROP=pid, GOMAXPROCS="16", HX_BUILD=B)
         env.update(st.get("env", {}))
         if tier == "thorough":
             env.update(st.get("env_thorough", {}))
